@@ -774,6 +774,85 @@ def evaluate(cases: t.List[dict], workers: int = 0) -> t.List[dict]:
     return res
 
 
+# ------------------------------------------------------------------------------------------------
+# sort keys that are expressions (outside the chain theorem, whose keys are column names): the implementation's
+# orderBy(expr…) against the specification of withColumn(key) -> orderBy(key, every column) -> drop(key)
+# ------------------------------------------------------------------------------------------------
+
+
+def cols_after(c: dict) -> t.Dict[str, str]:
+    """names and types of the columns after the steps"""
+    types = dict(c["schema"])
+    for s in c["steps"]:
+        k = s["k"]
+        if k == "select":
+            types = {n: expr_type(tuple_(e), types) for n, e in s["items"]}
+        elif k == "withColumn":
+            types[s["n"]] = expr_type(tuple_(s["e"]), types)
+        elif k == "withColumnRenamed":
+            types = {(s["b"] if n == s["a"] else n): ty for n, ty in types.items()}
+        elif k == "drop":
+            types = {n: ty for n, ty in types.items() if n not in s["ns"]}
+        elif k == "toDF":
+            types = {n: ty for n, ty in zip(s["names"], types.values())}
+        elif k == "unpivot":
+            types = {**{n: types[n] for n in s["ids"]}, s["var"]: "str", s["val"]: "int"}
+    return types
+
+
+def exprsort_case(rng: random.Random, kinds: t.Sequence[str]) -> t.Optional[dict]:
+    c = gen_program(rng, kinds, focus=True)
+    if not c or not valid(c) or has_risky_limit(c):
+        return None
+    types = cols_after(c)
+    ints = [n for n, ty in types.items() if ty == "int"]
+    if not ints or any(n.startswith("__k") for n in types):
+        return None
+    keys = []
+    for i in range(rng.choice([1, 1, 2])):
+        f = rng.choice(ints)
+        e = rng.choice([("bin", "add", ("col", f), ("lit", 1)), ("neg", ("col", f)), ("bin", "sub", ("lit", 3), ("col", f)),
+                        ("bin", "mul", ("col", f), ("col", rng.choice(ints))), ("ite", ("isNull", ("col", f)), ("lit", 0), ("neg", ("col", f)))])
+        desc = rng.random() < 0.4
+        keys.append({"e": e, "desc": desc, "nullsFirst": (not desc) if rng.random() < 0.7 else (rng.random() < 0.5)})
+    c["sortkeys"] = keys
+    c["origin"] = "expression-sort-keys"
+    return c
+
+
+def exprsort_to_lean(i: int, c: dict) -> dict:
+    cols = list(cols_after(c))
+    extra = [{"k": "withColumn", "n": f"__k{j}", "e": k["e"]} for j, k in enumerate(c["sortkeys"])]
+    order = {"k": "orderBy", "keys": [{"name": f"__k{j}", "desc": k["desc"], "nullsFirst": k["nullsFirst"]} for j, k in enumerate(c["sortkeys"])]
+             + [{"name": n, "desc": False, "nullsFirst": True} for n in cols]}
+    drop = {"k": "drop", "ns": [f"__k{j}" for j in range(len(c["sortkeys"]))]}
+    return case_to_lean(i, dict(c, steps=c["steps"] + extra + [order, drop]))
+
+
+def run_exprsort(c: dict) -> dict:
+    from sqlframe.duckdb import functions as F
+
+    try:
+        df = X.make_df(session(), c["schema"], c["rows"])
+        for s in c["steps"]:
+            df = apply_step(df, s, F)
+        ks = []
+        for k in c["sortkeys"]:
+            col = X.to_column(tuple_(k["e"]), F)
+            d, nf = k["desc"], k["nullsFirst"]
+            ks.append(col if (not d and nf and len(ks) % 2 == 0) else (col.asc() if not d and nf else col.asc_nulls_last() if not d else col.desc() if not nf else col.desc_nulls_first()))
+        out = df.orderBy(*ks, *[F.col(n).asc() for n in df.columns])
+        return {"cols": list(out.columns), "rows": [[plain(v) for v in r] for r in out.collect()]}
+    except Exception as e:  # noqa
+        return {"err": f"{type(e).__name__}: {str(e)[:200]}"}
+
+
+def eval_exprsort(cases: t.List[dict], workers: int = 0) -> t.List[dict]:
+    outs = vlib.run_driver("C01", [exprsort_to_lean(i, c) for i, c in enumerate(cases)])
+    impls = vlib.parallel_map(run_exprsort, cases, workers)
+    return [{"case": c, "impl": im, "spec": o["spec"], "ok": same(im, o["spec"], True)} for c, o, im in zip(cases, outs, impls)]
+
+
 def dropdup_case(rng: random.Random) -> t.Optional[dict]:
     """dropDuplicates(subset) keeps one (unspecified) representative per key: checked relationally"""
     kinds = [rng.choice(KINDS) for _ in range(rng.randint(0, 3))]
@@ -864,6 +943,16 @@ def run(ctx: Ctx) -> None:
     dd_res = vlib.parallel_map(run_dropdup, dd)
     dd_bad = [(c, r) for c, r in zip(dd, dd_res) if r["problems"]]
 
+    # sort keys that are expressions: every kind (thorough: kind pair) before the sort, every step on one column
+    es_cases = []
+    for kinds in itertools.product(KINDS, repeat=2 if ctx.thorough else 1):
+        for _ in range(2 if ctx.thorough else 3):
+            x = exprsort_case(ctx.rng, kinds)
+            if x:
+                es_cases.append(x)
+    es_res = eval_exprsort(es_cases)
+    es_bad = [r for r in es_res if not r["ok"]]
+
     if model_mismatch:
         ctx.broken.append(f"correspondence stream A (implementation vs Impl/DataFrame.lean): {len(model_mismatch)} of {len(res)} cases differ")
     shape_mismatch = [r for r in res if not r["shape_eq"]]
@@ -891,6 +980,21 @@ def run(ctx: Ctx) -> None:
                 "broken": ctx.broken,
             },
         )
+        reported += 1
+    for r in es_bad[: max(0, 3 - reported)]:
+        c = r["case"]
+        best = c
+        for _ in range(8):  # drop steps before the sort while the sorted result still differs
+            cands = [dict(best, steps=best["steps"][:i] + best["steps"][i + 1 :]) for i in range(len(best["steps"]))]
+            cands = [x for x in cands if valid(x) and not has_risky_limit(x) and all(expr_refs(tuple_(k["e"])) <= set(cols_after(x)) and cols_after(x).get(n) == "int" for k in x["sortkeys"] for n in expr_refs(tuple_(k["e"])))]
+            nxt = next((x for x in cands if not eval_exprsort([x], workers=1)[0]["ok"]), None)
+            if nxt is None:
+                break
+            best = nxt
+        rr = eval_exprsort([best], workers=1)[0]
+        vlib.report_violation(ctx, {"kind": "orderBy over expression keys differs from sorting by the keys' values (specification: withColumn(key) -> orderBy(key, all columns) -> drop(key))",
+                                    "program": show_case(best) + ".orderBy(" + ", ".join(X.show(tuple_(k["e"])) + (" desc" if k["desc"] else " asc") + (" nulls first" if k["nullsFirst"] else " nulls last") for k in best["sortkeys"]) + ", <every column asc>)",
+                                    "exprsort_case": best, "implementation": rr["impl"], "specification": rr["spec"]})
         reported += 1
     for c, r in dd_bad[: max(0, 3 - reported)]:
         vlib.report_violation(ctx, {"kind": "dropDuplicates(subset) does not keep exactly one input row per key", "program": show_case(c) + f".dropDuplicates({c['subset']})", "dropdup_case": c, "problems": r["problems"], "result": r.get("after")})
@@ -924,6 +1028,7 @@ def run(ctx: Ctx) -> None:
             "order_determined_cases": n_ordered,
             "implementation_errors": n_err,
             "dropDuplicates_subset_relational_cases": len(dd),
+            "expression_sort_key_cases": len(es_res),
             "op_kind_histogram": kinds_hist,
             "length_histogram": {str(k): v for k, v in sorted(lens.items())},
             "samples": [{"program": show_case(r["case"]), "result": r["impl"]} for r in res[:: max(1, len(res) // 4)][:4]],
